@@ -155,3 +155,35 @@ Proof.
   - left; reflexivity.
   - unfold names. rewrite map_length. simpl. lia.
 Qed.
+
+(* at run level: the recursive-model outcome can only come from the pre-pass, so a run that ends in it names a
+   command on a cycle; pulling results never produces it *)
+Section Run.
+Variable V : Type.
+Variable F : cmd -> list V -> V.
+
+Lemma pull_list_not_recursive (pl : st V -> name -> outcome (st V * V)) :
+  (forall s n m, pl s n <> ErrRecursive m) -> forall ns s m, pull_list pl s ns <> ErrRecursive m.
+Proof. intros Hpl. induction ns as [|n t IH]; intros s m; simpl; [discriminate|].
+  destruct (pl s n) as [[s1 v]| | |] eqn:E; try discriminate.
+  - destruct (pull_list pl s1 t) as [[s2 vs]| | |] eqn:E2; try discriminate. intros H. injection H as ->. exact (IH _ _ E2).
+  - intros H. injection H as ->. exact (Hpl _ _ _ E). Qed.
+
+Lemma pull_not_recursive : forall fuel P s n m, pull F fuel P s n <> ErrRecursive m.
+Proof. induction fuel as [|f IH]; intros P s n m; simpl; destruct (get s n); try discriminate.
+  destruct (lookup P n) as [c|]; [|discriminate].
+  destruct (pull_list (pull F f P) _ (refs c)) as [[s1 vs]| | |] eqn:E; try discriminate.
+  intros H. injection H as ->. revert E. apply pull_list_not_recursive. intros s' n' m'. apply IH. Qed.
+
+Lemma run_leaves_not_recursive fuel P : forall ls s m, run_leaves F fuel P s ls <> ErrRecursive m.
+Proof. induction ls as [|c t IH]; intros s m; simpl; [discriminate|].
+  destruct (pull F fuel P s (nm c)) as [[s1 v]| | |] eqn:E; try discriminate; [apply IH|].
+  intros H. injection H as ->. exact (pull_not_recursive _ _ _ _ _ E). Qed.
+
+Theorem recursive_outcome_sound P fuel s n :
+  run_program F fuel P s = ErrRecursive n -> find_cycle P = Some n /\ exists l, chain P n l n.
+Proof. unfold run_program. destruct (first_missing P P); [discriminate|].
+  destruct (find_cycle P) as [k|] eqn:E.
+  - intros H. injection H as ->. split; [reflexivity | apply reported_on_cycle; exact E].
+  - intros H. exfalso. exact (run_leaves_not_recursive _ _ _ _ _ H). Qed.
+End Run.
